@@ -257,7 +257,7 @@ def _check_rewrite(m, cls):
     holders = []
 
     def wrap(kind, key, f):
-        if key == (a, b):
+        if kind == "density_fs" and key == (a, b):
             holders.append(build_api.scaled(f))
             return holders[-1]
         return f
